@@ -344,6 +344,8 @@ def check(run):
     run.guard(accessors, funcs)
     run.guard(combinatorics, funcs, 6 if run.tier == 'quick' else 40)
     run.guard(large_face, funcs)
+    from . import C19
+    run.guard(C19.intersect_planes_obligations, funcs)      # every vertex is the intersection of its three planes (Vertex::from_dual -> intersect_planes)
     from . import staterules as SR
     run.guard(SR.cell_transitions, funcs, 'C15')
     run.guard(SR.cell_clone, funcs, 'C15')            # face data is still present after clone (unchecked access relies on it)
@@ -354,6 +356,9 @@ def check(run):
 def replay(path):
     d = json.load(open(path))
     from . import staterules as SR
+    if d['kind'] == 'intersect_planes':
+        from . import C19
+        return C19.replay(path)
     if d['kind'] in SR.NATIVE:
         return SR.replay(d)
     f = {'with_faces_lowdim': check_lowdim_native, 'accessor_own_image': check_accessor_native, 'polytope': check_polytope_native, 'large_face': check_large_face_native}[d['kind']]
